@@ -80,7 +80,7 @@ def draw_cfg(rng, variant, nmax, rf_nmax=None, valid=True):
     """Draw one valid configuration of a class variant."""
     if variant in RF:
         nmax = min(nmax, rf_nmax or nmax)
-    N = draw_N(rng, nmax)
+    N = draw_N(rng, nmax, small=max(8, nmax // 12))
     if variant == "None":
         return {"cls": "None", "N": N, "p": {}}
     if variant == "SingleMemory":
